@@ -224,7 +224,21 @@ func (u *Unit) evalBuiltin(st *State, call *ast.CallExpr, name string) []Value {
 			return []Value{intV(Ite(Gt(a.Term, b.Term), a.Term, b.Term))}
 		}
 	case "copy":
-		u.errorf("%s: builtin copy not modelled", u.pos(call))
+		d := u.eval(st, call.Args[0])
+		sv := u.eval(st, call.Args[1])
+		if d.K != KSlice || sv.K != KSlice || !types.Identical(d.Elem, sv.Elem) {
+			u.errorf("%s: copy on unsupported operands", u.pos(call))
+			return []Value{intV(IntLit(0))}
+		}
+		n := Ite(Lt(d.Len, sv.Len), d.Len, sv.Len)
+		h := u.heap(st, d.Elem)
+		nh := u.ctx.Fresh(u.symName("H:"+elemKey(d.Elem)), h.Sort)
+		q := boundVar("q?" + fmt.Sprint(u.nextBound()))
+		st.Assume(Forall([]*Term{q}, Ite(And(Le(d.Ptr, q), Lt(q, Add(d.Ptr, n))),
+			Eq(Select(nh, q), Select(h, Add(sv.Ptr, Sub(q, d.Ptr)))), Eq(Select(nh, q), Select(h, q)))))
+		u.writeEvent(st, "H:"+elemKey(d.Elem))
+		u.setComp(st, "H:"+elemKey(d.Elem), nh)
+		return []Value{intV(n)}
 	}
 	u.errorf("%s: unsupported builtin %s", u.pos(call), name)
 	return []Value{{K: KUnit}}
@@ -673,13 +687,19 @@ func (u *Unit) execLoop(st *State, init ast.Stmt, cond ast.Expr, post ast.Stmt, 
 	// induction variable
 	var ivar types.Object
 	var rngLen *Term
+	var rngSlice Value
 	if rng != nil {
 		x := u.eval(st, rng.X)
-		if x.K != KSlice || rng.Value != nil {
-			u.errorf("loop %d: only `for i := range slice` is modelled", ord)
+		if x.K != KSlice {
+			u.errorf("loop %d: only range over a slice is modelled", ord)
 			return []*State{st}
 		}
 		rngLen = x.Len
+		rngSlice = x
+		if rng.Key == nil {
+			u.errorf("loop %d: range without an index variable is not modelled", ord)
+			return []*State{st}
+		}
 		if id, ok := rng.Key.(*ast.Ident); ok {
 			ivar = info.ObjectOf(id)
 			st.vars[ivar] = intV(IntLit(0))
@@ -760,6 +780,11 @@ func (u *Unit) execLoop(st *State, init ast.Stmt, cond ast.Expr, post ast.Stmt, 
 	p.branch = nil
 	gp := guardOf(p)
 	p.Assume(gp)
+	if rng != nil && rng.Value != nil {
+		if vid, ok := rng.Value.(*ast.Ident); ok && vid.Name != "_" {
+			p.vars[info.ObjectOf(vid)] = u.loadElem(p, rngSlice, p.vars[ivar].Term)
+		}
+	}
 	var dec0 *Term
 	if lc.Decreases != nil {
 		dec0 = u.evalSpec(u.loopEnv(p, ord), lc.Decreases.Expr).Term
@@ -795,11 +820,11 @@ func (u *Unit) execLoop(st *State, init ast.Stmt, cond ast.Expr, post ast.Stmt, 
 		for name, t := range o.mem {
 			if h, ok := headMem[name]; ok && h != t {
 				if !headHavoc[name] {
-					u.oblige(o, "modifies", fmt.Sprintf("loop%d:frame:%s:path%d", ord, name, k+1), u.fnProps(), Eq(t, h))
+					u.oblige(o, "modifies", fmt.Sprintf("loop%d:frame:%s:path%d", ord, compClass(name), k+1), u.fnProps(), Eq(t, h))
 				}
 			} else if !ok {
 				if init0, ok := u.initMem[name]; ok && init0 != t {
-					u.oblige(o, "modifies", fmt.Sprintf("loop%d:frame:%s:path%d", ord, name, k+1), u.fnProps(), Eq(t, init0))
+					u.oblige(o, "modifies", fmt.Sprintf("loop%d:frame:%s:path%d", ord, compClass(name), k+1), u.fnProps(), Eq(t, init0))
 				}
 			}
 		}
